@@ -507,32 +507,46 @@ func (g *G) parked(x vr, rest []vr, a *Ty, fuel int) func() Term {
 	u := g.unf(x.t)
 	var A *Ty
 	var ax func() Term
+	type opt struct {
+		a  *Ty
+		ax func() Term
+	}
+	var opts []opt
 	switch u.K {
 	case KWith:
-		if x.t.M != g.base {
-			return nil
+		if x.t.M == g.base {
+			b := u.Brs[g.intn(len(u.Brs))]
+			opts = append(opts, opt{b.T, func() Term { return &Sel{To: "x", Label: b.L, Cont: "self"} }})
 		}
-		b := u.Brs[g.intn(len(u.Brs))]
-		A = b.T
-		ax = func() Term { return &Sel{To: "x", Label: b.L, Cont: "self"} }
 	case KLolli:
-		if x.t.M != g.base {
-			return nil
-		}
-		A = u.R
-		ax = func() Term {
-			w := g.fresh("y")
-			return g.newCall(w, u.L, g.maker(u.L), nil, &Send{To: "x", Payload: w, Cont: "self"})
+		if x.t.M == g.base {
+			opts = append(opts, opt{u.R, func() Term {
+				w := g.fresh("y")
+				return g.newCall(w, u.L, g.maker(u.L), nil, &Send{To: "x", Payload: w, Cont: "self"})
+			}})
 		}
 	case KUp:
-		if u.From != g.base {
-			return nil
+		if u.From == g.base {
+			opts = append(opts, opt{u.L, func() Term { return &Cast{To: "x", Cont: "self"} }})
 		}
-		A = u.L
-		ax = func() Term { return &Cast{To: "x", Cont: "self"} }
-	default:
+	}
+	// a pending tail call f(x) / f(self, x) of an earlier one-parameter definition
+	for _, sg := range g.sigs {
+		sg := sg
+		if len(sg.Params) == 1 && key(sg.Params[0].T) == key(x.t) {
+			opts = append(opts, opt{sg.Res, func() Term {
+				if g.intn(2) == 1 {
+					return &Call{F: sg.Name, Args: []string{"self", "x"}}
+				}
+				return &Call{F: sg.Name, Args: []string{"x"}}
+			}})
+		}
+	}
+	if len(opts) == 0 {
 		return nil
 	}
+	o := opts[g.intn(len(opts))]
+	A, ax = o.a, o.ax
 	return func() Term {
 		var n *Ty
 		var body Term
